@@ -91,6 +91,11 @@ fn main() {
                 cur_file: a.get("cur-file").cloned(),
                 max_found: num("max-found", 8) as usize,
             };
+            if let Some(f) = a.get("out").cloned() {
+                driver::start_hang_monitor(move |idx, var| {
+                    let _ = std::fs::write(format!("{f}.hang"), format!("{idx} {var}"));
+                });
+            }
             let st = driver::worker(&wa);
             let out = serde_json::to_string(&st).unwrap();
             match a.get("out") {
@@ -116,6 +121,14 @@ fn main() {
                 eprintln!("replay file names a (shape, N, M) combination this build has no executor for");
                 std::process::exit(2);
             }
+            {
+                let (prop, file) = (r.property.clone(), f.clone());
+                driver::start_hang_monitor(move |_, _| {
+                    println!("the replayed plan makes no progress for {} s: an operation does not terminate", driver::HANG_SECS);
+                    println!("VIOLATION property={prop} replay={file}");
+                    // the monitor ends the process with status 3; ./check maps that to 1
+                });
+            }
             let out = dispatch::run_plan(&r.plan);
             println!("seed={} run={} ops={} faults={} events={} trace={:016x}", r.seed, r.run, r.plan.ops.len(), r.plan.faults.len(), out.events, out.trace);
             for v in &out.viols {
@@ -140,7 +153,17 @@ fn main() {
         "plan" => {
             let prop = get("prop", "C04");
             let p = gen::base_plan(num("seed", 1), props::prop_no(&prop), num("run", 0), &props::profile(&prop));
-            println!("{}", serde_json::to_string(&p).unwrap());
+            match a.get("variant").and_then(|v| v.parse::<usize>().ok()) {
+                None => println!("{}", serde_json::to_string(&p).unwrap()),
+                Some(vi) => {
+                    // the vi-th enumerated variant of the base plan (needs its fault-free dry run)
+                    quiet_panics();
+                    let dry = dispatch::run_plan(&p);
+                    let mut vr = env::SplitMix(env::mix(num("seed", 1) ^ 0xABCD, props::prop_no(&prop), num("run", 0)));
+                    let vars = props::variants(&prop, &p, &dry, &mut vr, get("tier", "quick") == "thorough");
+                    println!("{}", serde_json::to_string(vars.get(vi).unwrap_or(&p)).unwrap());
+                }
+            }
         }
         "run" => {
             quiet_panics();
